@@ -170,15 +170,16 @@ def run(ctx: Ctx) -> None:
                         ok = a == b
                         ctx.add('C18.R1', f'{f.qualname}:{unparse(n)}', ok, (f.file, n.lineno), f'{unparse(n.left)} ({a}) compared with {unparse(n.comparators[0])} ({b})' + ('' if ok else ' - a label is compared with a position'), f'{a}=={b}')
                 elif isinstance(n, ast.Call):
-                    for k in n.keywords:
-                        if k.arg in LABEL_PARAMS:
-                            s = st.sort(k.value)
+                    bound = prog.bind_call(f, n) or {karg: kvalue for k in n.keywords if karg}
+                    for karg, kvalue in bound.items():
+                        if karg in LABEL_PARAMS:
+                            s = st.sort(kvalue)
                             if s in (L, P):
                                 n_sub += 1
-                                ctx.add('C18.R1', f'{f.qualname}:{call_name(n)}({k.arg}=)', s == L, (f.file, n.lineno), f'{k.arg}={unparse(k.value)} ({s})' + ('' if s == L else ' - a position is passed where a label is expected'), f'{k.arg}<-{s}')
-                        if k.arg in ('consumptions', 'epsilon') and isinstance(k.value, ast.Name):
+                                ctx.add('C18.R1', f'{f.qualname}:{call_name(n)}({karg}=)', s == L, (f.file, n.lineno), f'{karg}={unparse(kvalue)} ({s})' + ('' if s == L else ' - a position is passed where a label is expected'), f'{karg}<-{s}')
+                        if karg in ('consumptions', 'epsilon') and isinstance(kvalue, ast.Name):
                             # a positional array built from a label-keyed dict must follow index_to_key
-                            defs = [a for a in walk_no_nested(f.node) if isinstance(a, ast.Assign) and unparse(a.targets[0]) == k.value.id]
+                            defs = [a for a in walk_no_nested(f.node) if isinstance(a, ast.Assign) and unparse(a.targets[0]) == kvalue.id]
                             for d in defs:
                                 for comp in ast.walk(d.value):
                                     if isinstance(comp, ast.ListComp):
@@ -186,12 +187,12 @@ def run(ctx: Ctx) -> None:
                                         src = unparse(it)
                                         if isinstance(it, ast.Call) and call_name(it) == 'sorted' and it.args and isinstance(it.args[0], ast.Call) and call_name(it.args[0]) == 'items' and st.sort(it.args[0].func.value) == LD:
                                             n_sub += 1
-                                            ctx.add('C18.R1', f'{f.qualname}:{k.arg}<-{k.value.id}', False, (f.file, d.lineno),
-                                                    f'{k.value.id} lists the values of a label-keyed dictionary in the order of the sorted labels and is passed as the positional array `{k.arg}`: '
+                                            ctx.add('C18.R1', f'{f.qualname}:{karg}<-{kvalue.id}', False, (f.file, d.lineno),
+                                                    f'{kvalue.id} lists the values of a label-keyed dictionary in the order of the sorted labels and is passed as the positional array `{karg}`: '
                                                     f'positions follow index_to_key, not sorted labels', detail=src)
                                         elif src in ('self.index_to_key', 'enumerate(self.index_to_key)'):
                                             n_sub += 1
-                                            ctx.add('C18.R1', f'{f.qualname}:{k.arg}<-{k.value.id}', True, (f.file, d.lineno), f'{k.value.id} follows index_to_key', src)
+                                            ctx.add('C18.R1', f'{f.qualname}:{karg}<-{kvalue.id}', True, (f.file, d.lineno), f'{kvalue.id} follows index_to_key', src)
             # R2
             a = f.node.args
             arrays = {p.arg for p in a.args + a.kwonlyargs if p.annotation is not None and re.search(r'ndarray|np\.array', unparse(p.annotation))}
@@ -216,7 +217,7 @@ def run(ctx: Ctx) -> None:
     ok = 'return self.key_to_index[self.outside_good_key]' in unparse(og.node)
     ctx.add('C18.R1', 'Mdcev.outside_good_index', ok, og, 'position of the outside good = key_to_index[its label]' if ok else 'outside_good_index changed', 'og')
     su = M.methods['sum_of_utilities']
-    ok = has_expr(su.node, '[self.utility_one_alternative(the_id=_K, the_consumption=float(consumptions[_I]), epsilon=float(epsilon[_I]), one_observation=data_row) for _I, _K in enumerate(self.index_to_key)]')
+    ok = has_expr(su.node, '[self.utility_one_alternative(_K, float(consumptions[_I]), float(epsilon[_I]), data_row) for _I, _K in enumerate(self.index_to_key)]')
     ctx.add('C18.R1', 'Mdcev.sum_of_utilities', ok, su, 'position i of consumptions / epsilon belongs to label index_to_key[i]' if ok else 'pairing of positions and labels in sum_of_utilities changed', 'sum')
     bf = M.methods['forecast_bruteforce_one_draw']
     ok = False
